@@ -7,7 +7,7 @@ carries its complete schedule."""
 import sys
 import threading
 import types
-from queue import Empty
+from queue import Empty, Full
 
 from ..engine import Engine, SxControl
 
@@ -200,6 +200,10 @@ class CoopQueue:
     def __init__(self, maxsize=0):
         self.items = []
         self.touched = set()
+        self.maxsize = maxsize if isinstance(maxsize, int) else 0
+
+    def full(self):
+        return self.maxsize > 0 and len(self.items) >= self.maxsize
 
     def _touch(self):
         if Sched.cur is not None:
@@ -210,11 +214,22 @@ class CoopQueue:
         if s is None or s.abort is not None:
             self.items.append(x)       # outside a scheduled run (e.g. a finaliser): plain queue behaviour
             return
-        s.yield_(lambda: True, what="put")
+        if self.maxsize > 0:
+            if not block:
+                s.yield_(lambda: True, what="put_nowait")
+                if self.full():
+                    raise Full
+            else:
+                to = s.yield_(lambda: not self.full(), can_timeout=timeout is not None, what="put")
+                if to:
+                    raise Full
+        else:
+            s.yield_(lambda: True, what="put")
         self._touch()
         self.items.append(x)
 
-    put_nowait = put
+    def put_nowait(self, x):
+        return self.put(x, block=False)
 
     def get(self, block=True, timeout=None):
         s = Sched.cur
@@ -275,6 +290,7 @@ def modules():
     fq = types.ModuleType("sx_queue")
     fq.Queue = CoopQueue
     fq.Empty = Empty
+    fq.Full = Full
     sys.modules["sx_threading"] = ft
     sys.modules["sx_queue"] = fq
     return {"threading": "sx_threading", "queue": "sx_queue"}
